@@ -247,6 +247,39 @@ func RunCopies(args []string) int {
 		w.WriteByte('\n')
 		lines++
 	}
+	// the events the client makes up itself (here: DISCONNECTED) are copied per invocation like lines off the wire
+	{
+		raw := ""
+		for h := 0; h < 2; h++ {
+			s.C.HandleFunc(client.DISCONNECTED, mk("fg", 10+h))
+			s.C.HandleBG(client.DISCONNECTED, mk("bg", 10+h))
+		}
+		done := make(chan struct{})
+		mu.Lock()
+		bgDone[raw] = done
+		mu.Unlock()
+		go s.C.Close()
+		select {
+		case <-done:
+		case <-time.After(10 * time.Second):
+			fmt.Println("INCOMPLETE background dispatch of DISCONNECTED never finished")
+			return 3
+		}
+		time.Sleep(5 * time.Millisecond)
+		mu.Lock()
+		r := rec{Raw: "", Args: []string{}, HasTags: false, Tags: [][2]string{}, Expected: 4, Invs: cur[raw]}
+		for i := range r.Invs {
+			r.Invs[i].Slots = []int{}
+		}
+		mu.Unlock()
+		if r.Invs == nil {
+			r.Invs = []inv{}
+		}
+		b, _ := json.Marshal(r)
+		w.Write(cmds.ASCIIJSON(b))
+		w.WriteByte('\n')
+		lines++
+	}
 	b, _ := json.Marshal(map[string]interface{}{"lines": lines, "invocations": invocations, "handlers_per_line": expectedOf, "kept_alive": len(keep)})
 	fmt.Println("SUMMARY " + string(b))
 	return 0
